@@ -1,5 +1,6 @@
 (* Eco/Github/Version.v — model of pkg/ecosystem/github/version.go (definitions only). *)
 From Verif.Base Require Import Bytes GoNum.
+From Verif.Gen Require Tables.
 From Verif.Eco Require Import VLayer.
 Local Open Scope N_scope.
 
@@ -147,8 +148,9 @@ Definition parse_core (t : bytes) : option core :=
   end.
 
 (* getQualifierPrecedence *)
+(* generated from the Go source on every run (tools/gen -> Gen/Tables.v) *)
 Definition github_qualifier_precedence : list (bytes * Z) :=
-  [($"dev", 0%Z); ($"alpha", 1%Z); ($"beta", 2%Z); ($"rc", 3%Z); ($"snapshot", 4%Z)].
+  Eval cbv delta [Verif.Gen.Tables.github_getQualifierPrecedence] in Verif.Gen.Tables.github_getQualifierPrecedence.
 Definition qual_prec (q : bytes) : Z :=
   match lookup q github_qualifier_precedence with Some p => p | None => 99%Z end.
 
